@@ -132,6 +132,7 @@ inline int g_pay_range_n = 0;
 
 }  // namespace vf
 
+#if !VERIF_TSAN  // (the TSan runtimes bring their own operator new; node accounting is not needed there)
 /*##############################################################################
  * operator new / delete interposition
  *############################################################################*/
@@ -175,10 +176,12 @@ operator delete[](void *p, std::size_t) noexcept
   free(p);
 }
 
+#endif  // !VERIF_TSAN
+
 /*##############################################################################
  * TSan glue
  *############################################################################*/
-#if VERIF_TSAN
+#if VERIF_TSAN && !defined(VERIF_NO_TSAN_CALLBACK)
 extern "C" {
 int __tsan_get_report_data(void *report, const char **description, int *count, int *stack_count,
                            int *mop_count, int *loc_count, int *mutex_count, int *thread_count,
